@@ -1,7 +1,17 @@
 """Level texts for MANIFEST.json."""
-HOOK_COMMITS = ["645c65a", "e34ba59", "f51c5d9", "f6ed18e"]
+HOOK_COMMITS = ["645c65a", "e34ba59", "f51c5d9", "f6ed18e", "079d75a", "f4d99a1"]
 NOT_APPLICABLE = {}
 LEVELS = {
+    "C02": {
+        "text": "Proof: C02_time / C02_event (every triggered identity satisfies the release condition: strictly later block timestamp, "
+                "activation block reached, member of a keyper set whose newest eon succeeded, not marked decrypted / fired and undecrypted), "
+                "C02_sorted, C02_distinct, C02_history (every block of every history, timestamps not monotone, restarts included), "
+                "C02_never_again_time/_event. The model is tied to newblock.go and updateEventFlag by running the real trigger decision "
+                "and keys handler over the PostgreSQL fake; the release condition is also evaluated directly on the implementation's triggers.",
+        "design_ref": "DESIGN.md §4 C02",
+        "note": "Trusted: Lean kernel; correspondence harness incl. pgfake/kdb; the verif-tag hook; SQL text of three queries pinned. Safety only.",
+        "technique": "Lean 4 theorems (per-block decision logic + invariants by induction over operation histories) + differential runs of the real trigger decision over an in-process PostgreSQL fake",
+    },
     "C19": {
         "text": "Proof: C19_prefix (gas-bounded prefix of the queue from the pointer with the at-least-one rule, for every queue, pointer and "
                 "gas limit), C19_sorted / C19_slot_first (sorted request, slot identity first under the stated assumption), C19_row_order / "
